@@ -39,7 +39,7 @@ static bool run_once(verif::Schedule& sch, int run_idx, bool print) {
         for (size_t t = 0; t < T; ++t) { printf("eff %zu", t); for (auto& o : eff[t]) printf(" %s", o.c_str()); printf("\n"); }
         const void* sa = (const void*)MUTEX_WORD(m);
         for (auto& e : r.log) if (e.addr == sa && e.kind <= verif::K_FXOR)
-            printf("e %d %s %llu %llu %d\n", e.tid, verif::kind_name(e.kind), (unsigned long long)e.a, (unsigned long long)e.b, e.ok);
+            printf("e %d %s word %s %llu %llu %d\n", e.tid, verif::kind_name(e.kind), verif::order_name(e.order), (unsigned long long)e.a, (unsigned long long)e.b, e.ok);
         for (size_t t = 0; t < T; ++t) { printf("res %zu", t); for (int v : res[t]) printf(" %d", v); printf("\n"); }
         printf("mon %s%s\n", gerr.empty() ? (r.deadlock ? "DEADLOCK" : "ok") : "VIOLATION ", gerr.c_str());
         printf("sched"); for (int s : r.schedule) printf(" %d", s); printf("\nend\n");
